@@ -436,6 +436,101 @@ var mutators = map[string]func(d *docInfo, a, b int) bool{
 		}
 		return true
 	},
+	// the two conflicting selections sit in different fragments on the same object type, with
+	// (valid) same-shaped selections of the response name on other, mutually exclusive types
+	// before or between them; reached by seeded change C04-m1
+	"conflict-across-fragments": func(d *docInfo, a, b int) bool {
+		var cands []setRef
+		for _, s := range d.sets {
+			if def := d.schema.Types[s.typ]; def != nil && (def.Kind == ast.Object || def.Kind == ast.Interface || def.Kind == ast.Union) {
+				cands = append(cands, s)
+			}
+		}
+		s, ok := pick(cands, a)
+		if !ok {
+			return false
+		}
+		var objs []*ast.Definition
+		for _, o := range d.schema.GetPossibleTypes(d.schema.Types[s.typ]) {
+			if o.Kind == ast.Object {
+				objs = append(objs, o)
+			}
+		}
+		sort.Slice(objs, func(i, j int) bool { return objs[i].Name < objs[j].Name })
+		leafsOf := func(def *ast.Definition) (leafs, withArgs []*ast.FieldDefinition) {
+			for _, f := range def.Fields {
+				if strings.HasPrefix(f.Name, "__") {
+					continue
+				}
+				required := false
+				for _, ad := range f.Arguments {
+					if ad.Type.NonNull && ad.DefaultValue == nil {
+						required = true
+					}
+				}
+				if td := d.schema.Types[f.Type.Name()]; isLeaf(d.schema, f.Type) && !required && f.Type.Elem == nil && td != nil && td.Kind == ast.Scalar && td.BuiltIn {
+					leafs = append(leafs, f)
+					if f.Arguments.ForName("first") != nil {
+						withArgs = append(withArgs, f)
+					}
+				}
+			}
+			return
+		}
+		target, ok := pick(objs, b)
+		if !ok {
+			return false
+		}
+		leafs, withArgs := leafsOf(target)
+		var one, two *ast.Field
+		if b%4 == 3 && len(withArgs) > 0 {
+			f := withArgs[(a/3)%len(withArgs)]
+			one = &ast.Field{Alias: "cf", Name: f.Name, Arguments: ast.ArgumentList{{Name: "first", Value: intVal("1")}}}
+			two = &ast.Field{Alias: "cf", Name: f.Name, Arguments: ast.ArgumentList{{Name: "first", Value: intVal("2")}}}
+		} else {
+			if len(leafs) < 2 {
+				return false
+			}
+			i := (a / 3) % len(leafs)
+			j := (i + 1 + (a/7)%(len(leafs)-1)) % len(leafs)
+			one = &ast.Field{Alias: "cf", Name: leafs[i].Name}
+			two = &ast.Field{Alias: "cf", Name: leafs[j].Name}
+		}
+		oneDef := target.Fields.ForName(one.Name)
+		// decoys: the selection "one" (same field name where the type has it with the same
+		// type, else any leaf of the same type) on other possible object types — valid there
+		var decoys []ast.Selection
+		for _, o := range objs {
+			if o == target || len(decoys) >= (b/2)%3 {
+				continue
+			}
+			var h *ast.FieldDefinition
+			ls, _ := leafsOf(o)
+			for _, f := range ls {
+				if f.Type.String() == oneDef.Type.String() && (h == nil || f.Name == one.Name) && (len(one.Arguments) == 0 || f.Arguments.ForName("first") != nil) {
+					h = f
+				}
+			}
+			if h != nil {
+				decoys = append(decoys, &ast.InlineFragment{TypeCondition: o.Name, SelectionSet: ast.SelectionSet{&ast.Field{Alias: "cf", Name: h.Name, Arguments: one.Arguments}}})
+			}
+		}
+		first := ast.Selection(&ast.InlineFragment{TypeCondition: target.Name, SelectionSet: ast.SelectionSet{one}})
+		var second ast.Selection = &ast.InlineFragment{TypeCondition: target.Name, SelectionSet: ast.SelectionSet{two}}
+		if b%5 == 0 {
+			d.doc.Fragments = append(d.doc.Fragments, &ast.FragmentDefinition{Name: "CfFrag", TypeCondition: target.Name, SelectionSet: ast.SelectionSet{two}})
+			second = &ast.FragmentSpread{Name: "CfFrag"}
+		}
+		if b%2 == 0 {
+			*s.set = append(*s.set, decoys...)
+			*s.set = append(*s.set, first, second)
+		} else {
+			*s.set = append(*s.set, first)
+			*s.set = append(*s.set, decoys...)
+			*s.set = append(*s.set, second)
+		}
+		return true
+	},
 	"undefined-variable": func(d *docInfo, a, b int) bool {
 		f, ok := pick(d.fields, a)
 		if !ok {
